@@ -1009,4 +1009,31 @@ theorem offer_backed {s : State} (hI : Bind4 s) {m : Msg} (hn : circuitHit s m =
             rw [← h2]; exact Or.inl this
   exact key _ _ rfl h
 
+/-- a DISCOVER never touches the lease table (it can only add a pool binding) -/
+theorem discover_leases (s : State) (m : Msg) : (discover s m).1.leases = s.leases := by
+  unfold discover
+  have fresh : ∀ x : State × Reply,
+      x = (match s.cfg.nexusLookup m.mac with
+        | some ip => (s, Reply.offer ip s.cfg.leaseTime)
+        | none =>
+          match s.pool.allocate m.mac with
+          | (p, some ip) => ({ s with pool := p }, Reply.offer ip s.cfg.leaseTime)
+          | (_, none) => (s, Reply.none)) → x.1.leases = s.leases := by
+    intro x hx
+    subst hx
+    cases s.cfg.nexusLookup m.mac with
+    | some ip => rfl
+    | none =>
+      simp only
+      cases e : s.pool.allocate m.mac with
+      | mk p r => cases r <;> rfl
+  simp only
+  cases existing s m with
+  | none => exact fresh _ rfl
+  | some l =>
+    simp only
+    split
+    · rfl
+    · exact fresh _ rfl
+
 end Bng.Dhcp4
